@@ -100,6 +100,7 @@ type c25Gen struct {
 	invalidS  bool // allow strings that are not valid UTF-8
 	nonFinite bool // allow NaN / Inf
 	timeNanos bool // allow sub-second instants below a microsecond
+	timeWhole bool // whole seconds only
 }
 
 func (g *c25Gen) str() string {
@@ -188,7 +189,11 @@ func (g *c25Gen) time() time.Time {
 	rng := g.rng
 	sec := rng.Int63n(4102444800) // 1970 .. 2100
 	var ns int64
-	switch rng.Intn(4) {
+	k := rng.Intn(4)
+	if g.timeWhole {
+		k = 0
+	}
+	switch k {
 	case 0:
 		ns = 0
 	case 1:
@@ -789,7 +794,7 @@ func TestVerif_C25(t *testing.T) {
 			keep(0, f)
 			r.Case("proto/"+string(f), f != nil)
 		case 2: // CBOR struct
-			g := &c25Gen{rng: rng, invalidS: true, nonFinite: true, timeNanos: rng.Intn(2) == 0}
+			g := &c25Gen{rng: rng, invalidS: true, nonFinite: true, timeNanos: rng.Intn(2) == 0, timeWhole: rng.Intn(3) != 0}
 			var v any = g.msg()
 			if rng.Intn(5) == 0 {
 				v = &c25Small{Name: g.str(), Count: int(g.i64()), When: g.time()}
